@@ -74,6 +74,8 @@ func renderTerm(t any) string {
 		return "seq.Delay[int](" + termThunk(m["f"], false) + ")"
 	case "comb":
 		return "seq.Combine[int](" + renderTerm(m["a"]) + ", " + renderTerm(m["b"]) + ")"
+	case "forpost":
+		return fmt.Sprintf("seq.ForPost[int](func() bool { return r.T(%d) }, %s, %s)", num(obj(m["c"])["id"]), renderTerm(m["post"]), renderTerm(m["body"]))
 	case "brk":
 		return "seq.Breakable[int](" + renderTerm(m["body"]) + ")"
 	case "for":
